@@ -16,9 +16,12 @@ PROCS = int(os.environ.get("VERIF_PROCS", "0")) or min(16, os.cpu_count() or 1)
 # ---- watchdog ----------------------------------------------------------------------------------------------------
 # A change can make the implementation hang inside ONE C-level call (an arbitrary-precision conversion, a regular
 # expression): no Python-level budget sees that, and a check that never exits decides nothing.  Every worker owns a
-# record in a shared map: (start of its task, last heart beat, task index, text of the case in hand).  The parent polls;
-# a worker whose beat is older than CASE_LIMIT seconds of real time (explorers that call beat() before every
-# evaluation) or whose task runs longer than TASK_LIMIT is killed and reported as a violation of kind "hang".
+# record in a shared map: (start of its task, last heart beat, task index, text of the case in hand, pid).  The parent
+# polls every 2 s.  A worker whose beat value has not changed while it consumed more than CASE_LIMIT seconds of
+# PROCESSOR time (read from /proc/<pid>/stat - immune to a loaded or suspended machine), or over 10 x CASE_LIMIT seconds
+# of parent-observed polls (an evaluation that sleeps for ever), or whose task exceeds TASK_LIMIT, is killed and
+# reported as a violation of kind "hang".  Polls separated by more than 30 s (the parent itself was not running) reset
+# all observations.
 FAILFAST = bool(os.environ.get("VERIF_FAILFAST"))
 CASE_LIMIT = float(os.environ.get("VERIF_CASE_LIMIT", "45"))
 TASK_LIMIT = float(os.environ.get("VERIF_TASK_LIMIT", "0")) or None  # set by run.py according to the tier
@@ -45,7 +48,7 @@ def _write(start=None, beat=None, idx=None, case=None) -> None:
         _mm[off + 16:off + 24] = struct.pack("q", idx)
     if case is not None:
         b = case if isinstance(case, bytes) else str(case).encode("utf-8", "replace")
-        b = b[:_REC - 32]
+        b = b[:_REC - 40]
         _mm[off + 24:off + 26] = struct.pack("H", len(b))
         _mm[off + 26:off + 26 + len(b)] = b
 
@@ -60,7 +63,22 @@ def _read(slot):
     start, bt = struct.unpack("dd", _mm[off:off + 16])
     idx, = struct.unpack("q", _mm[off + 16:off + 24])
     n, = struct.unpack("H", _mm[off + 24:off + 26])
-    return start, bt, idx, bytes(_mm[off + 26:off + 26 + n]).decode("utf-8", "replace")
+    pid, = struct.unpack("q", _mm[off + _REC - 8:off + _REC])
+    return start, bt, idx, bytes(_mm[off + 26:off + 26 + n]).decode("utf-8", "replace"), pid
+
+
+_TICK = os.sysconf("SC_CLK_TCK") if hasattr(os, "sysconf") else 100
+
+
+def _cpu(pid: int) -> float:
+    """Processor seconds (user + system) consumed so far by a worker - does not advance while the machine is suspended
+    or the worker is waiting for a processor, unlike real time."""
+    try:
+        with open(f"/proc/{pid}/stat") as fh:
+            f = fh.read().rsplit(")", 1)[1].split()
+        return (int(f[11]) + int(f[12])) / _TICK
+    except (OSError, IndexError, ValueError):
+        return 0.0
 
 
 def run_with_deadline(fn, seconds: float) -> str:
@@ -138,6 +156,8 @@ def _call(arg):
 
     vclock.reset()
     t = _now()
+    if _mm is not None and _slot is not None:
+        _mm[_slot * _REC + _REC - 8:_slot * _REC + _REC] = struct.pack("q", os.getpid())
     _write(start=t, beat=0.0, idx=idx, case=b"")
     try:
         res = _guard(fn, task)
@@ -171,6 +191,8 @@ def pmap(fn, tasks, seed: int = 0, procs: int | None = None):
     try:
         it = pool.imap_unordered(_call, [(i, fn, tasks[i]) for i in order], chunksize=1)
         got = 0
+        watch = {}  # slot -> [beat value, cpu seconds of the worker when that value was first seen, polls seen, task idx, task polls]
+        last_poll = _now()
         while got < len(tasks):
             try:
                 idx, res = it.next(timeout=2.0)
@@ -178,18 +200,36 @@ def pmap(fn, tasks, seed: int = 0, procs: int | None = None):
                 got += 1
                 if FAILFAST and getattr(res, "v", None):
                     break
-                continue
+                if _now() - last_poll < 2.0:
+                    continue
             except mp.TimeoutError:
                 pass
             now = _now()
+            gap, last_poll = now - last_poll, now
+            if gap > 30.0:
+                watch.clear()  # this process itself was not scheduled (suspended sandbox): what it saw before says nothing
+                continue
             for slot in range(nw):
-                start, bt, idx, case = _read(slot)
+                start, bt, idx, case, pid = _read(slot)
                 if start <= 0:
+                    watch.pop(slot, None)
                     continue
-                if bt > 0 and now - bt > CASE_LIMIT:
-                    hung = (idx, case, f"one evaluation did not return within {CASE_LIMIT:g} s of real time")
-                elif TASK_LIMIT and now - start > TASK_LIMIT:
-                    hung = (idx, case, f"partition did not finish within {TASK_LIMIT:g} s of real time")
+                w = watch.get(slot)
+                if w is None or w[3] != idx:
+                    w = watch[slot] = [None, 0.0, 0, idx, 0]
+                w[4] += 1
+                if bt != w[0]:
+                    w[0], w[1], w[2] = bt, _cpu(pid), 0
+                else:
+                    w[2] += 1
+                if bt > 0 and w[2] >= 2:
+                    used = _cpu(pid) - w[1]
+                    if used > CASE_LIMIT:
+                        hung = (idx, case, f"one evaluation used more than {CASE_LIMIT:g} s of processor time without returning")
+                    elif w[2] * 2.0 > 10 * CASE_LIMIT:
+                        hung = (idx, case, f"one evaluation did not return within {10 * CASE_LIMIT:g} s (observed over {w[2]} polls of this process)")
+                if not hung and TASK_LIMIT and w[4] * 2.0 > TASK_LIMIT:
+                    hung = (idx, case, f"partition did not finish within {TASK_LIMIT:g} s (observed over {w[4]} polls)")
                 if hung:
                     break
             if hung:
